@@ -445,3 +445,8 @@ func init() {
 	addMutant(Mutant{Name: "c28-oneof-members-not-uniquified", Property: "C28", File: "protogen/protogen.go",
 		Old: "\t\tfor _, f := range d.oneofs {\n\t\t\tf.Name = genutil.MakeNameUnique(f.Name, args.definedFieldNames)\n\t\t}\n", New: "", Expect: "oneof-members#"})
 }
+
+func init() {
+	addMutant(Mutant{Name: "c14-unkeyed-entries-not-visited", Property: "C14", File: "ygot/struct_validation_map.go",
+		Old: "\t\t\t\tsv := e.Elem()\n\t\t\t\t_ = pruneBranchesInternal(sv.Type(), sv)\n", New: "\t\t\t\tsv := e.Elem()\n\t\t\t\t_ = sv\n", Expect: "descends:slice"})
+}
